@@ -235,7 +235,9 @@ pub trait PixelDataObject {
                     if offset >= base_offset {
                         frame_data.extend_from_slice(&fragment);
                     }
-                    offset += fragment.len() + 8;
+                    // offsets count the item header
+                    // and the fragment padded to an even length
+                    offset += ((fragment.len() + 1) & !1) + 8;
                     if let Some(&next_offset) = next_offset {
                         if offset >= next_offset as usize {
                             // next fragment is for the next frame
